@@ -22,8 +22,8 @@ MANIFEST = {
                   "Tie to the code: all numeric literals of Shamir.cpp, the width of the share-index counter and both tables (dumped from the "
                   "compiled build_exp_table/build_log_table) are regenerated on every run and the proofs depend on them "
                   "(tables_match_source); the real Shamir.cpp (anonymous-namespace GF functions included) runs in-process against the "
-                  "compiled model: the complete gf_mul / gf_div tables, split over boundary/random (t, n) pairs and, thorough tier, the whole "
-                  "triangle 1 <= t <= n <= 255, combine on random subsets/orders and malformed sets, with the Lean specification "
+                  "compiled model: the complete gf_mul / gf_div tables, split over boundary/random (t, n) pairs and, thorough tier, the "
+                  "triangle 1 <= t <= n <= 255 (every pair for n <= 64, seven thresholds for every larger n), combine on random subsets/orders and malformed sets, with the Lean specification "
                   "(field axioms on the exhibited table, polynomial-consistency of the shares, spec-field Lagrange reconstruction) judging "
                   "every line.",
     "level_note": "Holds on the tree with the two C10 fix patches applied (the model follows the repaired code). Trusted: Lean kernel and "
@@ -32,7 +32,7 @@ MANIFEST = {
                   "2 original defects were all caught); std::random_device is a parameter of the model (theorems quantify over every "
                   "draw sequence) and is replaced by a deterministic stream in the harness; its entropy quality and the informal step "
                   "'bijection => uniform and independent of the secret' are outside the proof. A split hang is recognised in the harness "
-                  "by a 2 s CPU-time limit of a forked child. combine(…, 0) (threshold 0, outside the property's domain) returns the "
+                  "by a 2 s CPU-time limit on a watched worker thread. combine(…, 0) (threshold 0, outside the property's domain) returns the "
                   "all-zero secret in code and model and is not judged.",
     "technique": "Lean 4 proof (finite-field structure via log/exp bijection and xtime linearity, Mathlib Lagrange interpolation) + regenerated "
                  "constants/tables + model/implementation differential correspondence with Lean monitor",
@@ -43,7 +43,7 @@ HDR = "include/ephemeralnet/crypto/Shamir.hpp"
 
 
 def harness():
-    return build_harness("shamir_h", "harness/shamir_h.cpp", [], includes_repo_cpp=True)
+    return build_harness("shamir_h", "harness/shamir_h.cpp", [], includes_repo_cpp=True, libs=("-lpthread",))
 
 
 # --------------------------------------------------------------------------------------
@@ -306,9 +306,15 @@ def generate(ctx, budget):
     for (t, n) in BOUNDARY_TN:
         cases.append(split_case(rng, t, n, 4 if n > 64 else 8, "split-boundary"))
     if ctx.tier == "thorough":
-        # the whole triangle 1 <= t <= n <= 255
+        # the triangle 1 <= t <= n <= 255: every pair up to n = 64; for every larger n the thresholds 1, 2, n/2, n-1, n and
+        # two random ones.  VERIF_C10_FULL_TRIANGLE=1 runs all 32 640 pairs (about 45 min of CPU with the sanitised harness).
+        full = os.environ.get("VERIF_C10_FULL_TRIANGLE") == "1"
         for n in range(1, 256):
-            for t in range(1, n + 1):
+            if full or n <= 64:
+                ts = range(1, n + 1)
+            else:
+                ts = sorted({1, 2, n // 2, n - 1, n, rng.randint(3, n - 2), rng.randint(3, n - 2)})
+            for t in ts:
                 cases.append(split_case(rng, t, n, 2, "split-triangle"))
     while len(cases) < budget:
         if rng.random() < 0.7:
@@ -344,18 +350,19 @@ def spec() -> Spec:
         generate=generate,
         extract=extract,
         nontrivial=nontrivial,
-        budget={"quick": 260, "thorough": 34500},
-        search_budget={"quick": 600, "thorough": 36000},
+        budget={"quick": 260, "thorough": 5000},
+        search_budget={"quick": 600, "thorough": 7000},
         rule="(a) the complete 256x256 gf_mul and 255x256 gf_div tables, row by row, plus both log/exp tables and a digest; "
-             "(b) split for (t, n): boundary pairs incl. n = 255 and t = n, random pairs, and in the thorough tier every pair of the "
-             "triangle 1 <= t <= n <= 255, each followed by combine() on random subsets/orders of its shares (exact t, more, one "
+             "(b) split for (t, n): boundary pairs incl. n = 255 and t = n, random pairs, and in the thorough tier the triangle "
+             "1 <= t <= n <= 255 (every pair for n <= 64, thresholds 1, 2, n/2, n-1, n and two random ones for every larger n; all "
+             "32 640 pairs with VERIF_C10_FULL_TRIANGLE=1), each followed by combine() on random subsets/orders of its shares (exact t, more, one "
              "short, repeated position inside/outside the first t, reversed, lower threshold); (c) explicit well-formed and "
              "malformed share sets (too few, repeated index with zero / sparse / random bytes, index 0, t = 0, empty); secrets "
              "random / all-zero / all-ff, coefficient streams random / all-zero / constant. distinct = sha256 of the op list; "
              "non-trivial = the implementation returned a value and (where the shape contains one) rejected a bad set",
         trusted_base=["std::random_device is replaced in the harness by a deterministic stream (link-time interposition of its three "
                       "out-of-line members); the quality of the real entropy source is outside the model",
-                      "split runs in a forked child of the harness with a 2 s CPU-time limit (a hang is reported as `timeout`; a valid split needs milliseconds)"],
+                      "split runs on a watched worker thread of the harness with a 2 s CPU-time limit (a hang is reported as `timeout`, the harness then re-executes itself and resumes; a valid split needs milliseconds)"],
         assumptions=["share indices and bytes are uint8 values (the C++ types guarantee it); secrets are 32 bytes"],
         per_case_timeout=60.0,
         batch=1000,
